@@ -256,7 +256,7 @@ theorem align_open {win} {s : St} (h : Open win s) (upto : Nat) :
       exact ⟨p, by rw [e]; exact hp, by rw [el, e]⟩
     · exact ⟨min upto s.outputFrame, by rw [e]; exact Nat.min_le_right _ _, by rw [hl, e]⟩
 
-theorem step_open (win : Nat) (skip : Nat → Bool) (s : St) (op : Op) (h : Open win s)
+theorem step_open (win : Nat) (skip : Nat → Bool) (s : St) (op : Op) (h : Open win s) (hnf : op.isFull = false)
     (hb : s.cmnFrames + offeredOps [op] ≤ cmnWinHwm) (hw : nMfc + 2 * win + 1 ≤ livebuf) :
     Open win (step true win skip s op) ∧ (step true win skip s op).cmnFrames ≤ s.cmnFrames + offeredOps [op] := by
   cases op with
@@ -266,6 +266,7 @@ theorem step_open (win : Nat) (skip : Nat → Bool) (s : St) (op : Op) (h : Open
     simp only [step, hst, if_false]
     simp only [offeredOps, Nat.add_zero] at hb ⊢
     exact decProcess_open win skip s ns rs h hb hw
+  | processFull ns rs => simp [Op.isFull] at hnf
   | query => exact ⟨h, by simp [step]⟩
   | align steps =>
     cases steps with
@@ -278,16 +279,17 @@ theorem offeredOps_cons (op : Op) (ops : List Op) : offeredOps (op :: ops) = off
   cases op <;> simp [offeredOps]
 
 theorem runOps_open (win : Nat) (skip : Nat → Bool) (hw : nMfc + 2 * win + 1 ≤ livebuf) :
-    ∀ (ops : List Op) (s : St), Open win s → s.cmnFrames + offeredOps ops ≤ cmnWinHwm →
+    ∀ (ops : List Op) (s : St), Open win s → (∀ op, op ∈ ops → op.isFull = false) →
+    s.cmnFrames + offeredOps ops ≤ cmnWinHwm →
     Open win (runOps true win skip s ops) ∧ (runOps true win skip s ops).cmnFrames ≤ s.cmnFrames + offeredOps ops := by
   intro ops
   induction ops with
-  | nil => intro s h _; exact ⟨h, by simp [runOps, offeredOps]⟩
+  | nil => intro s h _ _; exact ⟨h, by simp [runOps, offeredOps]⟩
   | cons op ops ih =>
-    intro s h hb
+    intro s h hnf hb
     rw [offeredOps_cons] at hb ⊢
-    obtain ⟨s1, s2⟩ := step_open win skip s op h (by omega) hw
-    obtain ⟨i1, i2⟩ := ih _ s1 (by omega)
+    obtain ⟨s1, s2⟩ := step_open win skip s op h (hnf op (List.mem_cons_self ..)) (by omega) hw
+    obtain ⟨i1, i2⟩ := ih _ s1 (fun op' hm => hnf op' (List.mem_cons_of_mem _ hm)) (by omega)
     simp only [runOps, List.foldl_cons] at i1 i2 ⊢
     exact ⟨i1, by omega⟩
 
@@ -452,6 +454,7 @@ theorem runOps_closed (win : Nat) (skip : Nat → Bool) : ∀ (post : List Op) (
     have hs : Closed win (step true win skip s op) := by
       cases op with
       | process ns rs => simp [Op.isProcess] at hop
+      | processFull ns rs => simp [Op.isProcess] at hop
       | query => exact h
       | align steps =>
         cases steps with
